@@ -380,8 +380,11 @@ void Image::load(FILE* f) {
           new_data[target_y_offset + x_offset + 1] = row_data[src_x_offset + 1];
           new_data[target_y_offset + x_offset + 0] = row_data[src_x_offset + 2];
         }
-        if (row_padding_bytes) {
-          fseek(f, row_padding_bytes, SEEK_CUR);
+        if (row_padding_bytes && fseek(f, row_padding_bytes, SEEK_CUR)) {
+          // The stream isn't seekable (e.g. a pipe), so consume the padding
+          // by reading it instead
+          uint8_t row_padding_data[4];
+          freadx(f, row_padding_data, row_padding_bytes);
         }
       }
 
